@@ -1191,6 +1191,15 @@ def oracle_mm(op, kv, res, trace, flags):
         return None if res == want else f"{op} returned {res}, naive search says {want}"
     if op in ("twnew", "twrnew"):
         return None if not res.startswith("Panic") else f"{op} panicked"
+    if op in ("rknew", "rkrnew"):
+        xs = x if op == "rknew" else x[::-1]
+        hh = 0
+        for b in xs:
+            hh = (2 * hh + b) % 2**32
+        p2 = pow(2, max(len(xs) - 1, 0), 2**32)
+        body = f"Finder {{ hash: Hash({hh}), hash_2pow: {p2} }}"
+        want = body if op == "rknew" else f"FinderRev({body})"
+        return None if res == want else f"{op} printed {res}, the polynomial hash of the needle gives {want}"
     return oracle_blocks(op, kv, res, trace, flags)
 
 def gen_tw(tier, rng):
@@ -1202,6 +1211,8 @@ def gen_tw(tier, rng):
             seen.add(x)
             cases.append(f"twnew x={hexs(x)}")
             cases.append(f"twrnew x={hexs(x)}")
+            cases.append(f"rknew x={hexs(x)}")
+            cases.append(f"rkrnew x={hexs(x)}")
         if len(x) >= 1:
             cases.append(f"twfind x={hexs(x)} h={hexs(h)}")
             cases.append(f"twrfind x={hexs(x)} h={hexs(h)}")
